@@ -187,9 +187,16 @@ static void run_longpw(uint64_t idx, pv_rng* rng) {
     char* nft = pv_nfkd_alloc(tail); size_t tn = strlen(nft); free(nft);
     long target = (long)POLYSEED_STR_SIZE - 1 - (long)(idx % 8);           /* size-8 .. size-1: everything that still fits */
     long front = target - (long)tn; if (front < 1) return;
-    char* pw = pv_xmalloc((size_t)front + tl + 1);
-    for (long i = 0; i < front; ++i) pw[i] = (char)('a' + (i * 5 + (long)idx) % 26);
-    memcpy(pw + front, tail, tl + 1);
+    /* every third password is much longer than the buffer as typed and only fits once decomposed (fullwidth letters: three
+     * bytes each, one byte after NFKD): the size limit is about the normalised form, not about what the user typed */
+    bool wide = (idx / 8) % 3 == 0; size_t per = wide ? 3 : 1;
+    char* pw = pv_xmalloc((size_t)front * per + tl + 1);
+    for (long i = 0; i < front; ++i) {
+        int k = (int)((i * 5 + (long)idx) % 26);
+        if (wide) { pw[3 * i] = (char)0xEF; pw[3 * i + 1] = (char)0xBD; pw[3 * i + 2] = (char)(0x81 + k); } else pw[i] = (char)('a' + k);
+    }
+    memcpy(pw + (size_t)front * per, tail, tl + 1);
+    if (wide) PV_COUNT("longpw.typed_longer_than_the_buffer", 1);
     char* nf = pv_nfkd_alloc(pw); size_t nl = strlen(nf); free(nf);
     if (nl >= POLYSEED_STR_SIZE) { free(pw); return; }
     pv_countf(1, "longpw.nfkd_length.size-%ld", (long)POLYSEED_STR_SIZE - (long)nl);
